@@ -21,6 +21,21 @@ def gen(rng, tier):
                     exp = "ok" if k == n else "err"
                     cs.append(Case("serde_fixed %s %d %s %s" % (cont, n, fmt, hx(p)), cls="fixed/%s/%s/%s" % (cont, fmt, "exact" if k == n else ("short" if k < n else "long")),
                                    expect=exp, meta={"why": "a %d-byte container decoded from %d bytes must %s" % (n, k, "succeed" if k == n else "fail, not pad or truncate")}))
+    # TryFrom<&[u8]> and the key-pair slice decoders are strict as well
+    for cont, ns in (("stack", (8, 16, 24, 32, 64)), ("heap", (16, 32, 64))):
+        for n in ns:
+            for k in range(0, 2 * n + 1):
+                p = rbytes(rng, k)
+                cs.append(Case("tryfrom %s %d %s" % (cont, n, hx(p)), cls="tryfrom/%s/%s" % (cont, "exact" if k == n else ("short" if k < n else "long")),
+                               expect=("ok " + hx(p)) if k == n else "err", meta={"why": "TryFrom<&[u8]> of a %d-byte container from %d bytes" % (n, k)}))
+    for k in range(0, 40):
+        for dk in (-1, 0, 1, 7):
+            pk, sk = rbytes(rng, 32 + (dk if k % 2 else 0)), rbytes(rng, 32 + (0 if k % 2 else dk))
+            if len(pk) == len(sk):
+                good = len(pk) == 32
+                cs.append(Case("tryfrom keypair 0 %s" % hx(pk + sk), cls="from_slices/keypair", expect=("ok " + hx(pk + sk)) if good else "err"))
+        spk, ssk = rbytes(rng, 32 + (k % 3 == 1)), rbytes(rng, 64 + 2 * (k % 3 == 1))
+        cs.append(Case("tryfrom signkeypair 0 %s" % hx(spk + ssk), cls="from_slices/signkeypair", expect=("ok " + hx(spk + ssk)) if k % 3 != 1 else "err"))
     for cont in ("vec", "heap", "locked"):
         for k in list(range(0, 70)) + [127, 128, 129, 4095, 4096, 4097]:
             for fmt in ("json", "bincode"):
